@@ -22,6 +22,14 @@ DEMOS = {
     ("C07", "change2"): ("py", "SNELDB_BIN", "demo_u64_after_compaction.py"),
     ("C08", "change1"): ("cptest", "c08_calendar_wide_zone_demo.rs", "c08_calendar_wide_zone_demo"),
     ("C08", "change2"): ("cptest", "c08_surf_many_zones_demo.rs", "c08_surf_many_zones_demo"),
+    ("C10", "change1"): ("sh", "cp {out}/demo/c10_demo.rs src/bin/c10_demo.rs && SNELDB_CONFIG={out}/demo/config.toml cargo run --offline --bin c10_demo -- nulls 2>&1 | tail -15; rc=${PIPESTATUS[0]}; rm -f src/bin/c10_demo.rs; exit $rc", None),
+    ("C10", "change2"): ("sh", "cp {out}/demo/c10_demo.rs src/bin/c10_demo.rs && SNELDB_CONFIG={out}/demo/config.toml cargo run --offline --bin c10_demo -- memtable-page 2>&1 | tail -15; rc=${PIPESTATUS[0]}; rm -f src/bin/c10_demo.rs; exit $rc", None),
+    ("C11", "change1"): ("sh", "git apply {out}/demo/demo.diff && cargo test --offline --lib c11_flush_publish_racing 2>&1 | tail -15; rc=${PIPESTATUS[0]}; git apply -R {out}/demo/demo.diff; exit $rc", None),
+    ("C11", "change2"): ("sh", "git apply {out}/demo/demo.diff && cargo test --offline --lib c11_compaction_with_one_unreadable 2>&1 | tail -15; rc=${PIPESTATUS[0]}; git apply -R {out}/demo/demo.diff; exit $rc", None),
+    ("C12", "change1"): ("sh", "{out}/demo/run_demo.sh 2>&1 | tail -15; exit ${PIPESTATUS[0]}", None),
+    ("C12", "change2"): ("sh", "{out}/demo/run_demo.sh 2>&1 | tail -15; exit ${PIPESTATUS[0]}", None),
+    ("C14", "change1"): ("sh", "{out}/demo/run_demo.sh without 2>&1 | tail -15; exit ${PIPESTATUS[0]}", "{out}/demo/run_demo.sh with 2>&1 | tail -15; exit ${PIPESTATUS[0]}"),
+    ("C14", "change2"): ("sh", "{out}/demo/run_demo.sh without 2>&1 | tail -15; exit ${PIPESTATUS[0]}", "{out}/demo/run_demo.sh with 2>&1 | tail -15; exit ${PIPESTATUS[0]}"),
     ("C13", "change1"): ("py", "SNELDB_BIN", "demo_grant_leak.py"),
     ("C13", "change2"): ("py", "SNELDB_BIN", "demo_revoked_user_forged_sig.py"),
 }
@@ -46,7 +54,15 @@ def main():
     if o.strip():
         sh("git checkout -- . && git clean -fdq src tests", wt)
 
-    def demo():
+    def demo(patched=False):
+        if kind == "sh":
+            cmd = a
+            if patched and b:
+                # the demo script applies ../patch.diff itself and resets the tree: start from a clean tree
+                sh("git checkout -- .", wt)
+                cmd = b
+            rc, o = sh("bash -c %r" % cmd.format(out=out), wt, env, timeout=3000)
+            return rc == 0, o[-1500:]
         if kind == "py":
             rc, o = sh("cargo build --offline --bin snel_db 2>&1 | tail -3", wt, env)
             if "error" in o and "Finished" not in o:
@@ -106,7 +122,7 @@ def main():
     except Exception as e:
         res["suite_ok"] = False
         res["detail"] = repr(e)
-    ok1, o1 = demo()
+    ok1, o1 = demo(patched=True)
     res["demo_with_change_passes"] = ok1
     res["demo_changed_tail"] = o1[-600:]
     return finish(res, wt)
